@@ -555,6 +555,7 @@ def m0_core():
     m.add(EnumDef("En", [("A", -3), ("B", None), ("C", 7), ("D", None), ("E", 2147483647), ("F", -2147483648), ("G", 0), ("H", 5)]))
     m.add(EnumDef("Small", [("X", None), ("Y", None), ("Z", None)]))
     m.add(EnumDef("Solo", [("Only", 1000)]))
+    m.add(EnumDef("Nz", [("Low", 1), ("High", 2)]))        # no variant with the all-zero bit pattern
     m.add(StructDef("Pad", [("a", P("u8")), ("b", P("u64")), ("c", P("i16")), ("d", P("u32")), ("e", P("bool"))]))
     m.add(StructDef("Rev", [("e", P("bool")), ("d", P("u32")), ("c", P("i16")), ("b", P("u64")), ("a", P("u8"))]))
     m.add(StructDef("Mixed", [("f", P("f32")), ("en", EnumT("En")), ("g", P("f64")), ("ch", P("DiplomatChar")), ("by", P("DiplomatByte")),
@@ -564,6 +565,7 @@ def m0_core():
     m.add(StructDef("Outer", [("p", P("u8")), ("inner", StructT("Inner")), ("q", P("u16")), ("s", EnumT("Small"))]))
     m.add(StructDef("WithOpt", [("a", Opt(P("u8"), "diplomat")), ("b", Opt(P("i64"), "diplomat")), ("c", Opt(EnumT("En"), "diplomat")),
                                 ("d", Opt(StructT("Inner"), "diplomat")), ("e", P("u8"))]))
+    m.add(StructDef("WithNz", [("k", P("u16")), ("z", Opt(EnumT("Nz"), "diplomat"))]))
     m.add(OpaqueDef("Op"))
     m.add(StructDef("OutS", [("o", OpaqueBox("Op")), ("n", P("i32")), ("p", OpaqueBox("Op", optional=True))], out=True))
     # every primitive as parameter and return
@@ -589,10 +591,12 @@ def m0_core():
     m.method("Op", "mixed", None, [("s", StructT("Mixed"))], StructT("Mixed"))
     m.method("Op", "nested", None, [("s", StructT("Outer")), ("i", StructT("Inner"))], StructT("Outer"))
     m.method("Op", "with_opt", None, [("s", StructT("WithOpt"))], StructT("WithOpt"))
+    m.method("Op", "with_nz", None, [("s", StructT("WithNz"))], StructT("WithNz"))
+    m.method("Op", "make_nz", None, [("k", P("u16"))], StructT("WithNz"))
     m.method("Op", "outs", "ref", [], StructT("OutS"))
     m.method("Op", "cmp", "ref", [("o", OpaqueRef("Op"))], Ordering())
     # Option / DiplomatOption pairs (C10), parameter and return position
-    for nm, t in (("u8", P("u8")), ("i64", P("i64")), ("f64", P("f64")), ("bool", P("bool")), ("char", P("DiplomatChar")), ("en", EnumT("En")), ("st", StructT("Inner")), ("pad", StructT("Pad"))):
+    for nm, t in (("u8", P("u8")), ("i64", P("i64")), ("f64", P("f64")), ("bool", P("bool")), ("char", P("DiplomatChar")), ("en", EnumT("En")), ("nz", EnumT("Nz")), ("st", StructT("Inner")), ("pad", StructT("Pad"))):
         m.method("Op", "opt_std_%s" % nm, None, [("x", Opt(t, "std")), ("s", P("u8"))], Opt(t, "std"))
         m.method("Op", "opt_dip_%s" % nm, None, [("x", Opt(t, "diplomat")), ("s", P("u8"))], Opt(t, "diplomat"))
     # Result / DiplomatResult pairs incl. unit arms
